@@ -17,17 +17,25 @@ PROP = dict(
          "Non-trivial = block with n >= 2 (every block then contains at least one letter with a non-constant spectrum, e.g. an impulse at m >= 1, "
          "a tone, the dense letter). Plan kinds / factor-tree shapes reached are listed in path_histogram (one count per block).",
     bounds=dict(
-        quick="lengths: every n in 1..512 plus 64 listed lengths in (512, 2^17] (primes at 2^k, 2p, p^2, p^3, 3^k, 5^k, 7^k, 2^k*p, highly composite, "
+        quick="lengths: every n in 1..512 plus 61 listed lengths in (512, 2^17] (primes at 2^k, 2p, p^2, p^3, 3^k, 5^k, 7^k, 2^k*p, highly composite, "
               "pq, 131071, 131072); entry points: all 9 forward entry points per letter; letters: impulses and bin-centred tones at every index for "
               "n <= 64, else at {0,1,2,n/2-1,n/2,n/2+1,n-2,n-1} + top-level split positions {P,Q,P+1} of the length and of the half length; constant, "
               "alternating, geometric |r|=1 and |r|=1-4/n, 1e+150/1e-150; dense letter with O(n^2) oracle for n <= 256; fft(x,n')/rfft(x,n'): every "
               "n' in 1..2n for n <= 64 (dense letter + 2 impulses), n' in {1,n-1,n,n+1,2n} above (geometric letter + 2 impulses); czt: n <= 16, "
               "m in 1..2n, 12 w = exp(-2 pi i p/q) (incl. 1/m), a in {0.5,1,2} x 4 angles plus exactly real a in {-1,-0.5,-2,-1.25,0.5,2,1.25} and exactly imaginary a = +-i*{1,0.5,2} (25 values), 3 letters. "
               "Quick only, listed lengths above 512: impulses/tones at {1, n/2+1, n-1, P, Q, P+1 (+ half-length split)}, entry points fft(x) and "
-              "plan.solve(array) only, resize targets {n-1, n+1}",
-        thorough="as quick with every n in 1..4096 (+ 58 listed lengths above 4096), all impulses/tones for n <= 256, dense oracle for n <= 1024, "
-                 "czt n <= 48"),
-    deadline=dict(quick=150, thorough=1500),
+              "plan.solve(array) only, resize targets {n-1, n+1}. "
+              "BIG SIZES in quick: all 61 listed lengths are above 512, 60 above 4096 and 19 above 65536 (up to 131072) for fft/rfft/FftPlan/FftPlanR "
+              "solve(array); the complete 9-entry-point set (operator(), pointer solve, rfft) with the full position set at n in {4099, 8192, 10000, "
+              "65537, 65538, 100000, 131072}; fft(x,n')/rfft(x,n') pad a 100- and a 500-sample input to n' in {4099, 65537, 100000}, truncate "
+              "131072 / 100000 samples to {4097, 70001}, and n' = n+-1 for every listed n (up to 131073); czt.big: (n,m) in {(5000,7),(7,5000),"
+              "(4097,4097),(70000,3),(3,70000)} x 3 w x a in {1, -1, 0.6+0.8i, -(1+32/n), i/(1+32/n)} x {dense, impulse@n-1} against the double sum",
+        thorough="as quick (no light mode: every listed length gets all entry points and positions) with every n in 1..12288, 46 + 45 listed "
+                 "lengths above 12288 (adds n around 46341 where n*n overflows int, primes / 2*prime around 65536 and 46349, 100003, 251*521, "
+                 "p^4, 29^3..43^3, round composites 15000..128000), all impulses/tones for n <= 256, dense oracle for n <= 2048, czt.def n <= 48, "
+                 "czt.big adds n in {64,100,127,128,255,256,257,500,1000,1024,2047,4096,5000} x m in {1,17,n-1,n,n+1,2n} and (8192,8192), "
+                 "(10000,9999), (131072,5), (5,131072), (65537,64), (64,65537), (46341,3)"),
+    deadline=dict(quick=150, thorough=3000),
     assumptions=COMMON_ASSUME + [
         "real-input vs complex-input agreement and conjugate symmetry are judged at 64*n*eps relative l2 (what two results within 32*n*eps of the "
         "exact DFT imply), not bit equality",
